@@ -204,6 +204,17 @@ class Gen:
         self.assign_indices(vs)
         D.append({'kind': 'enum', 'name': 'E%d' % len(D), 'variants': vs, 'generics': []})
         count += 1
+        # the largest enum the format allows: 256 encodable variants (implicit indices 0..=255), the last ones with fields
+        vs = []
+        for i in range(256):
+            if i in (254, 255):
+                vs.append({'name': 'V%d' % i, 'fields': [self.fld(0, i % 5, 'none', False), self.fld(1, 2, 'compact' if i == 255 else 'none', False)],
+                           'skip': False, 'src': 'implicit', 'kind': 'tuple'})
+            else:
+                vs.append({'name': 'V%d' % i, 'fields': [], 'skip': False, 'src': 'implicit', 'kind': 'unit'})
+        self.assign_indices(vs)
+        D.append({'kind': 'enum', 'name': 'E%d' % len(D), 'variants': vs, 'generics': []})
+        count += 1
         # all variants skipped (with and without fields), generic enum
         D.append({'kind': 'enum', 'name': 'E%d' % len(D), 'generics': [], 'variants': [
             {'name': 'A', 'fields': [], 'skip': True, 'src': 'implicit', 'kind': 'unit', 'index': None},
